@@ -43,6 +43,8 @@ func (e *Exec) resetPath() {
 	e.initDone = map[*ssa.Package]bool{}
 	e.inInit = false
 	e.pathVio = 0
+	e.model = map[*Term]*Term{}
+	e.modelOK = true
 	e.tt.fresh = 0
 	e.ss = &schedState{locks: map[Ptr]*lockState{}, wgs: map[Ptr]int{}, commits: map[*G]*commit{},
 		parkedRecv: map[*G][]*ChanObj{}, parkedSend: map[*G][]sendOffer{}}
@@ -122,12 +124,15 @@ type ExploreResult struct {
 }
 
 // Explore runs the DFS over all paths of harness h, instance inst.
-func (e *Exec) Explore(h *HarnessCfg, inst int, deadline time.Time) *ExploreResult {
+// Explore runs the DFS below the fixed decision prefix. wantWork/donate implement work splitting:
+// when other workers are idle the shallowest unexplored alternatives are handed over.
+func (e *Exec) Explore(h *HarnessCfg, inst int, deadline time.Time, prefix []Decision, wantWork func() bool, donate func([]Decision)) *ExploreResult {
 	t0 := time.Now()
 	e.harness = h.Fn
 	e.hcfg = h
 	e.instance = inst
-	e.trail = nil
+	e.trail = append([]Decision{}, prefix...)
+	fixed := len(prefix)
 	if h.MaxSteps > 0 {
 		e.maxSteps = h.MaxSteps
 	}
@@ -169,12 +174,33 @@ func (e *Exec) Explore(h *HarnessCfg, inst int, deadline time.Time) *ExploreResu
 				fmt.Fprintf(os.Stderr, "[%s#%d] %s: %s\n", h.Name, inst, out.Kind, out.Msg)
 			}
 		}
+		// hand over work when others are idle
+		if wantWork != nil && wantWork() {
+			for i := fixed; i < len(e.trail); i++ {
+				d := e.trail[i]
+				if d.Choice+1 >= d.limit() {
+					continue
+				}
+				for a := d.Choice + 1; a < d.limit(); a++ {
+					np := append([]Decision{}, e.trail[:i+1]...)
+					np[i].Choice = a
+					np[i].Checked = !np[i].Solver
+					np[i].Lim = 0
+					for k := range np {
+						np[k].AltModel = nil // terms belong to the donor's store
+					}
+					donate(np)
+				}
+				e.trail[i].Lim = d.Choice + 1
+				break
+			}
+		}
 		// backtrack
 		i := len(e.trail) - 1
-		for i >= 0 && e.trail[i].Choice+1 >= e.trail[i].N {
+		for i >= fixed && e.trail[i].Choice+1 >= e.trail[i].limit() {
 			i--
 		}
-		if i < 0 {
+		if i < fixed {
 			break
 		}
 		e.trail = e.trail[:i+1]
